@@ -480,6 +480,34 @@ func replayRPC(args []string) error {
 				break
 			}
 		}
+		// a batch may be long: 100 / 300 copies of the probe query come back as 100 / 300 results in order, ids 1..n
+		if !dead {
+			for _, width := range []int{100, 300} {
+				req := &proto.QueryRequest{}
+				for k := 0; k < width; k++ {
+					req.Queries = append(req.Queries, toPBQuery(dict, probeQ, rng, true))
+				}
+				rep.Steps++
+				resp, err := srv.query(req)
+				bad := ""
+				if err != nil {
+					bad = "error: " + err.Error()
+				} else if len(resp.Results) != width {
+					bad = fmt.Sprintf("%d results", len(resp.Results))
+				} else {
+					for k, r := range resp.Results {
+						if r.TotalCount != probeWant || int(r.QueryId) != k+1 {
+							bad = fmt.Sprintf("result %d: id %d count %d", k+1, r.QueryId, r.TotalCount)
+							break
+						}
+					}
+				}
+				if bad != "" {
+					rep.Mismatch(map[string]any{"kind": "rpc-long-batch", "cache": cfg[0], "preload": cfg[1], "queries": width, "problem": bad})
+					break
+				}
+			}
+		}
 		// C13: the grpc:// data source of the sql driver returns the same rows as the file data source
 		if !dead {
 			db, err := sql.Open("updog", "grpc://"+srv.addr)
@@ -680,7 +708,7 @@ func recordRPC(args []string) error {
 	}
 	defer srv.stop()
 	w.Emit(map[string]any{"ev": "Setup", "rows": rowsToJSON(rows)})
-	sweep, gsweep, timeouts := 0, 0, 0
+	sweep, gsweep, timeouts, afterFail, fresh := 0, 0, 0, 0, 0
 	for i := 0; i < *n; i++ {
 		req := &proto.QueryRequest{}
 		for k := rng.Intn(4); k > 0; k-- {
@@ -691,7 +719,23 @@ func recordRPC(args []string) error {
 			req.Queries = append(req.Queries, toPBQuery(dict, q, rng, true))
 		}
 		deepSlot := i%10 == 9 // deep nesting takes this request: the sweeps keep their next value for a later slot
-		if i%3 == 1 && sweep <= 3*41 && !deepSlot {
+		follow := afterFail > 0
+		if follow {
+			// right after a request that failed half-way through its operands: well-formed AND / OR nodes that were not
+			// asked before (so no cache answers them); nothing of the failed request may show in their answers
+			afterFail--
+			fresh++
+			l1 := &HExpr{Op: "eq", Col: 1, Val: 1 + fresh%3}
+			l2 := &HExpr{Op: "not", E: &HExpr{Op: "eq", Col: 2, Val: 1 + (fresh/3)%2}}
+			l3 := &HExpr{Op: "eq", Col: 2, Val: 1 + (fresh/6)%2}
+			e := &HExpr{Op: []string{"and", "or"}[fresh%2], Es: []*HExpr{l1, l2, l3}[:2+fresh%2]}
+			if fresh%5 == 0 {
+				e = &HExpr{Op: "not", E: e}
+			}
+			req.Queries = []*proto.Query{toPBQuery(dict, rpcQuery{E: e}, rng, true)}
+			deepSlot = false
+		}
+		if i%3 == 1 && sweep <= 3*41 && !deepSlot && !follow {
 			// systematic operand counts 0..40 for OR, AND and NOT(OR)
 			k := sweep / 3
 			e := &HExpr{Op: []string{"or", "and", "or"}[sweep%3]}
@@ -704,7 +748,7 @@ func recordRPC(args []string) error {
 			sweep++
 			req.Queries = []*proto.Query{toPBQuery(dict, rpcQuery{E: e}, rng, true)}
 		}
-		if i%3 == 2 && gsweep <= 100 && !deepSlot {
+		if i%3 == 2 && gsweep <= 100 && !deepSlot && !follow {
 			// systematic group-by widths: the 2-valued column repeated 0..70 times, then the 3-valued one 30..59 times
 			col, width := 2, gsweep
 			if gsweep > 70 {
@@ -717,12 +761,22 @@ func recordRPC(args []string) error {
 			}
 			req.Queries = []*proto.Query{toPBQuery(dict, q, rng, true)}
 		}
-		if j := i / 3; i%3 == 0 && j < 2*len(strangeColumns) && !deepSlot {
+		if j := i / 3; i%3 == 0 && j < 2*len(strangeColumns) && !deepSlot && !follow {
 			// comparisons against / grouping by columns the index does not have, under names of every shape (the slots the
 			// operand-count and group-by-width sweeps leave free)
 			name := strangeColumns[j/2]
 			eq := &proto.Query_Expression{Value: &proto.Query_Expression_Eq{Eq: &proto.Query_Expression_Equal{Column: name, Value: "x"}}}
 			if j%2 == 0 {
+				if j%4 == 0 {
+					afterFail = 2
+					// as a later operand of an OR / AND whose earlier operands are fine (the request fails half-way through)
+					good := toPB(dict, &HExpr{Op: "eq", Col: 1, Val: 1 + j%3}, rng, true, false)
+					if j%8 == 0 {
+						eq = &proto.Query_Expression{Value: &proto.Query_Expression_Or_{Or: &proto.Query_Expression_Or{Exprs: []*proto.Query_Expression{good, eq}}}}
+					} else {
+						eq = &proto.Query_Expression{Value: &proto.Query_Expression_And_{And: &proto.Query_Expression_And{Exprs: []*proto.Query_Expression{good, good, eq}}}}
+					}
+				}
 				req.Queries = []*proto.Query{{Expr: eq}}
 			} else {
 				req.Queries = []*proto.Query{{Expr: toPB(dict, &HExpr{Op: "eq", Col: 1, Val: 1}, rng, true, false), GroupBy: []string{name}}}
